@@ -12,7 +12,10 @@
 
 #define MAXN 256
 #define MAXL 4
-struct el { int val; int id; struct cstl_slist_node n; };
+/* two link members: list objects are configured with different node offsets (odd lists use n, even lists n2), so
+ * an operation that moves contents between list objects has to carry the configuration along */
+struct el { int val; int id; struct cstl_slist_node n; long pad; struct cstl_slist_node n2; };
+#define OFF_OF(j) ((j) % 2 ? offsetof(struct el, n) : offsetof(struct el, n2))
 static struct el pool[MAXN + 1];
 static int N, NL, PROBES = 1, MAXV;
 static struct cstl_slist L[MAXL + 1];
@@ -27,12 +30,13 @@ static int id_of_el(const void *e)
     if (d % sizeof(struct el)) return -999;
     return (int)(d / sizeof(struct el));
 }
-static int enc(const struct cstl_slist_node *p)
+/* a link found while walking list l: elements hang on the member list l is configured with */
+static int enc(const struct cstl_slist_node *p, int l)
 {
     int j, id;
     if (!p) return 0;
     for (j = 1; j <= NL; j++) if (p == &L[j].h) return -j;
-    id = id_of_el((const char *)p - offsetof(struct el, n));
+    id = id_of_el((const char *)p - L[l].off);
     if (id <= 0) { bad = 1; return 0; }
     return id;
 }
@@ -61,11 +65,14 @@ static void drv_reset(void)
 {
     int i;
 #ifdef USE_INITIALIZER
-    for (i = 1; i <= NL; i++) { struct cstl_slist x = CSTL_SLIST_INITIALIZER(L[i], struct el, n); L[i] = x; }
+    for (i = 1; i <= NL; i++) {
+        struct cstl_slist x = CSTL_SLIST_INITIALIZER(L[i], struct el, n), y = CSTL_SLIST_INITIALIZER(L[i], struct el, n2);
+        L[i] = i % 2 ? x : y;
+    }
 #else
-    for (i = 1; i <= NL; i++) cstl_slist_init(&L[i], offsetof(struct el, n));
+    for (i = 1; i <= NL; i++) cstl_slist_init(&L[i], OFF_OF(i));
 #endif
-    for (i = 0; i <= N; i++) memset(&pool[i].n, 0, sizeof pool[i].n);
+    for (i = 0; i <= N; i++) { memset(&pool[i].n, 0, sizeof pool[i].n); memset(&pool[i].n2, 0, sizeof pool[i].n2); }
 }
 static void drv_aborted(void) { }
 
@@ -80,7 +87,7 @@ static void rescan(void)
         const struct cstl_slist_node *p = L[j].h.n;
         slen[j] = 0;
         for (c = 0; p != NULL; c++) {
-            int id = enc(p);
+            int id = enc(p, j);
             if (bad || id <= 0 || where[id] || c > N) { bad = 1; break; }
             where[id] = j; seqs[j][slen[j]++] = id;
             p = p->n;
@@ -100,7 +107,7 @@ static void clear_cb(void *e, void *p)
     int id = id_of_el(e);
     (void)p;
     ev_add("%d", id);
-    if (id > 0) memset(&pool[id].n, 0xA5, sizeof pool[id].n);
+    if (id > 0) { memset(&pool[id].n, 0xA5, sizeof pool[id].n); memset(&pool[id].n2, 0xA5, sizeof pool[id].n2); }
 }
 static void drv_apply(const vop_t *op, jb_t *res)
 {
@@ -155,13 +162,15 @@ static void drv_ser(jb_t *b)
     int j, i;
     rescan();
     jb_puts(b, "{\"hn\":[");
-    for (j = 1; j <= NL; j++) jb_printf(b, "%s%d", j > 1 ? "," : "", enc(L[j].h.n));
+    for (j = 1; j <= NL; j++) jb_printf(b, "%s%d", j > 1 ? "," : "", enc(L[j].h.n, j));
     jb_puts(b, "],\"t\":[");
-    for (j = 1; j <= NL; j++) jb_printf(b, "%s%d", j > 1 ? "," : "", enc(L[j].t));
+    for (j = 1; j <= NL; j++) jb_printf(b, "%s%d", j > 1 ? "," : "", enc(L[j].t, j));
     jb_puts(b, "],\"count\":[");
     for (j = 1; j <= NL; j++) { if (j > 1) jb_puts(b, ","); jb_size(b, L[j].count); }
     jb_puts(b, "],\"nx\":[");
-    for (i = 1; i <= N; i++) jb_printf(b, "%s%d", i > 1 ? "," : "", where[i] ? enc(pool[i].n.n) : 0);
+    for (i = 1; i <= N; i++) jb_printf(b, "%s%d", i > 1 ? "," : "", where[i] ? enc(((const struct cstl_slist_node *)((const char *)&pool[i] + L[where[i]].off))->n, where[i]) : 0);
+    jb_puts(b, "],\"offk\":[");      /* which link member each list object is configured with */
+    for (j = 1; j <= NL; j++) jb_printf(b, "%s%d", j > 1 ? "," : "", L[j].off == offsetof(struct el, n) ? 1 : L[j].off == offsetof(struct el, n2) ? 2 : -1);
     jb_printf(b, "],\"bad\":%s}", bad ? "true" : "false");
 }
 #define ADD(K, A0, A1, A2, A3) do { vop_t o_ = { K, { A0, A1, A2, A3 } }; ops[no++] = o_; } while (0)
@@ -179,7 +188,7 @@ static int drv_enum(vop_t *ops, int max)
             if (i + 1 < slen[l]) ADD(5, l, seqs[l][i], 0, 0);
         }
         ADD(6, l, 0, 0, 0); ADD(7, l, 0, 0, 0); ADD(12, l, 0, 0, 0);
-        for (m = 1; m <= NL; m++) if (m != l) ADD(8, l, m, 0, 0);
+        for (m = 1; m <= NL; m++) if (m != l && L[m].off == L[l].off) ADD(8, l, m, 0, 0);   /* concat: like-configured lists only */
         for (m = l; m <= NL; m++) ADD(9, l, m, 0, 0);      /* m == l: a list swapped with itself */
         if (PROBES) {
             for (st = 0; st <= slen[l]; st++) ADD(11, l, st, 0, 0);
@@ -203,7 +212,7 @@ static int drv_random(unsigned long (*rnd)(void), vop_t *op)
     else if (r < 64 && slen[l] > 1) { op->k = 5; op->a[0] = l; op->a[1] = seqs[l][rnd() % (unsigned)(slen[l] - 1)]; }
     else if (r < 70) { op->k = 6; op->a[0] = l; }
     else if (r < 76) { op->k = 7; op->a[0] = l; }
-    else if (r < 82 && m != l) { op->k = 8; op->a[0] = l; op->a[1] = m; }
+    else if (r < 82 && m != l && L[m].off == L[l].off) { op->k = 8; op->a[0] = l; op->a[1] = m; }
     else if (r < 87 ) { op->k = 9; op->a[0] = l < m ? l : m; op->a[1] = l < m ? m : l; }
     else if (r < 93) { op->k = 11; op->a[0] = l; op->a[1] = (rnd() & 1) ? 0 : (int)(rnd() % (unsigned)(slen[l] + 1)); }
     else if (r < 95) { op->k = 12; op->a[0] = l; }
